@@ -1,7 +1,7 @@
 #!/venv/bin/python
 """Sensitivity validation (DESIGN 1.8): apply each catalogued mutant to a scratch copy of /repo/rope
 (under /dev/shm, removed afterwards) and run the quick tier of the property's check against it with
-ROPE_SRC pointing at the copy.  usage: tools/mutate.py Cnn [--scale S] [--only NAME]
+ROPE_SRC pointing at the copy.  usage: tools/mutate.py Cnn [--scale S] [--only NAME] [--keep DIR]
 A mutant = {"name", "file", "old", "new"[, "count"]} in mutants/<Cnn>.json.
 Exit 0 iff every mutant was detected (check exit 1)."""
 import json, os, shutil, subprocess, sys, tempfile
@@ -11,6 +11,7 @@ scale = "1"
 only = None
 if "--scale" in sys.argv: scale = sys.argv[sys.argv.index("--scale") + 1]
 if "--only" in sys.argv: only = sys.argv[sys.argv.index("--only") + 1]
+keep = sys.argv[sys.argv.index("--keep") + 1] if "--keep" in sys.argv else None  # copy the (shrunk) replays of each mutant there
 muts = json.load(open(os.path.join(HERE, "mutants", pid + ".json")))
 missed = []
 for m in muts:
@@ -28,12 +29,15 @@ for m in muts:
         open(fp, "w").write(s)
         env = dict(os.environ, ROPE_SRC=d, VERIF_REEXEC="0", VERIF_NOSHRINK="1", VERIF_REPLAY_DIR=os.path.join(d, "replays"))
         env.pop("PYTHONPATH", None)
+        if keep: env.pop("VERIF_NOSHRINK")
         r = subprocess.run([os.path.join(HERE, "check"), pid, "--scale", scale, "--no-evidence"], env=env, capture_output=True, text=True)
         buckets = [l for l in r.stdout.splitlines() if l.startswith("violation bucket") or l.startswith("fixed finding")]
         status = {0: "MISSED", 1: "DETECTED", 2: "HARNESS-ERROR"}.get(r.returncode, "?")
         print("%-14s %-40s %s" % (status, m["name"], (buckets[0][:150] if buckets else r.stdout.strip().splitlines()[-1][:150] if r.stdout.strip() else r.stderr[-300:])))
         if r.returncode == 2: print("   | " + "\n   | ".join((r.stdout + r.stderr).strip().splitlines()[-12:]))
         if r.returncode != 1: missed.append(m["name"])
+        if keep and os.path.isdir(os.path.join(d, "replays")):
+            shutil.copytree(os.path.join(d, "replays"), os.path.join(keep, m["name"]), dirs_exist_ok=True)
     finally:
         shutil.rmtree(d, ignore_errors=True)
 print("missed:", missed)
